@@ -57,6 +57,10 @@ def configs(tier, seed):
         base = dict(V=[[str(F(a)), str(F(b))] for a, b in V], knots=[str(F(x)) for x in knots])
         cfgs.append(dict(name=f"polyline{k} free point", kind="free", floats=True, **base))
         cfgs.append(dict(name=f"polyline{k} point on the curve", kind="on", floats=True, **base))
+    # slowly parametrised curves (|C'| << 1): the degenerate-piece guard must not mistake them for constant pieces
+    cfgs.append(dict(name="slow parametrisation 1 segment", kind="free", floats=True, V=[["0", "0"], ["1", "1/2"]], knots=["0", "4000"]))
+    cfgs.append(dict(name="slow parametrisation on the curve", kind="on", floats=True, V=[["0", "0"], ["1", "0"], ["1", "1"]],
+                     knots=["0", "3000", "6000"]))
     cfgs.append(dict(name="repeated vertex (3)", kind="free", V=[["0", "0"], ["1", "0"], ["1", "0"]], knots=["0", "1", "2"], floats=True))
     if tier == "thorough":
         cfgs.append(dict(name="repeated vertex (4)", kind="free", V=[["0", "0"], ["1", "0"], ["1", "0"], ["1", "1"]],
